@@ -23,12 +23,32 @@ theorem pidx_spec (p : Params) : ∀ (ps : List Params), p ∈ ps → ps[pidx p 
   | [], h => by cases h
   | q :: r, h => by
     unfold pidx
-    by_cases e : q = p
-    · simp [e]
-    · simp only [e, if_false, List.getElem?_cons_succ]
+    by_cases e : p ∈ r
+    · simp only [e, if_true, List.getElem?_cons_succ]
+      exact pidx_spec p r e
+    · simp only [e, if_false, List.getElem?_cons_zero, Option.some.injEq]
       rcases List.mem_cons.mp h with e' | e'
-      · exact absurd e'.symm e
-      · exact pidx_spec p r e'
+      · exact e'.symm
+      · exact absurd e' e
+
+/-- no later object has the same parameters -/
+theorem pidx_last (p : Params) : ∀ (ps : List Params) (j : Nat), pidx p ps < j → ps[j]? ≠ some p
+  | [], j, _ => by simp
+  | q :: r, j, hj => by
+    unfold pidx at hj
+    by_cases e : p ∈ r
+    · simp only [e, if_true] at hj
+      cases j with
+      | zero => omega
+      | succ j =>
+        rw [List.getElem?_cons_succ]
+        exact pidx_last p r j (by omega)
+    · cases j with
+      | zero => simp [e] at hj
+      | succ j =>
+        rw [List.getElem?_cons_succ]
+        intro hget
+        exact e (List.mem_of_getElem? hget)
 
 theorem value_at_pidx (st : St V) (ps : List Params) (hps : st.values.map (·.params) = ps) (p : Params) (hp : p ∈ ps) :
     ∃ v, st.values[pidx p ps]? = some v ∧ v.params = p := by
